@@ -17,7 +17,8 @@ use std::sync::Mutex;
 
 fn path_strings(thorough: bool) -> Vec<String> {
     let long = "L".repeat(300);
-    let comps: Vec<&str> = vec!["..", ".", "", "a", "a..b", "..a", "...", &long];
+    // on a Unix hub a backslash is an ordinary byte of a file name
+    let comps: Vec<&str> = vec!["..", ".", "", "a", "a..b", "..a", "...", &long, "..\\..\\esc", "\\abs"];
     let mut out: BTreeSet<String> = BTreeSet::new();
     let maxn = 3;
     let mut seqs: Vec<Vec<usize>> = Vec::new();
@@ -27,6 +28,10 @@ fn path_strings(thorough: bool) -> Vec<String> {
             let s: Vec<usize> = (0..n).map(|_| { let x = k % comps.len(); k /= comps.len(); x }).collect();
             // quick: 3-component strings only when they contain a `..` somewhere (the interesting class)
             if !thorough && n == 3 && !s.iter().any(|&i| comps[i] == "..") {
+                continue;
+            }
+            // the two backslash names only alone or as one of two components (keeps the quick set small)
+            if n == 3 && s.iter().any(|&i| comps[i].contains('\\')) {
                 continue;
             }
             seqs.push(s);
@@ -95,6 +100,25 @@ fn outside_snapshot(base: &Path, hub: &Path) -> Files {
     crate::e3::snapshot_dir(base).into_iter().filter(|(p, _)| !base.join(p).starts_with(hub) && !p.ends_with("ctl.sock")).collect()
 }
 
+fn dir_set(root: &Path) -> BTreeSet<String> {
+    let mut out = BTreeSet::new();
+    let mut st = vec![root.to_path_buf()];
+    while let Some(d) = st.pop() {
+        if let Ok(rd) = std::fs::read_dir(&d) {
+            for e in rd.flatten() {
+                if e.path().is_dir() {
+                    let rel = e.path().strip_prefix(root).map(|p| p.to_string_lossy().into_owned()).unwrap_or_default();
+                    if rel != ".copia" {
+                        out.insert(rel);
+                    }
+                    st.push(e.path());
+                }
+            }
+        }
+    }
+    out
+}
+
 fn c11_session(env: &WorkerEnv, pstr: &str, kind: &str, baseline: &(Vec<Option<Reply>>, Files)) -> Option<Violation> {
     let first = match kind {
         "Get" => Op::Get { path: pstr.to_string() },
@@ -150,6 +174,10 @@ fn c11_session(env: &WorkerEnv, pstr: &str, kind: &str, baseline: &(Vec<Option<R
         let probe: Vec<Option<Reply>> = ex.ops.iter().skip(1).map(|o| o.reply.clone()).collect();
         if probe != baseline.0 {
             return Some(Violation::new("connection_unusable", format!("{kind} with path {pstr:?}: the requests after the refused one got {:?}, a session without it gets {:?}", probe.iter().map(|r| r.as_ref().map(reply_label)).collect::<Vec<_>>(), baseline.0.iter().map(|r| r.as_ref().map(reply_label)).collect::<Vec<_>>()), det));
+        }
+        let dirs = dir_set(&env.root);
+        if dirs != BTreeSet::from(["d".to_string()]) {
+            return Some(Violation::new("refused_request_changed_tree", format!("{kind} with path {pstr:?} was refused but directories were created for it: {dirs:?}"), det));
         }
         if ex.final_tree != baseline.1 {
             return Some(Violation::new("refused_request_changed_tree", format!("{kind} with path {pstr:?}: tree after the session {:?} differs from the baseline session's {:?}", ex.final_tree.keys().collect::<Vec<_>>(), baseline.1.keys().collect::<Vec<_>>()), det));
@@ -245,12 +273,32 @@ fn framed(body: &[u8]) -> Vec<u8> {
     v
 }
 
+/// A reader that panics when it is polled again and again at end-of-input (a spinning decoder).
+struct EofGuard<'a> {
+    d: &'a [u8],
+    zero: usize,
+}
+impl Read for EofGuard<'_> {
+    fn read(&mut self, buf: &mut [u8]) -> std::io::Result<usize> {
+        let n = buf.len().min(self.d.len());
+        buf[..n].copy_from_slice(&self.d[..n]);
+        self.d = &self.d[n..];
+        if n == 0 && !buf.is_empty() {
+            self.zero += 1;
+            if self.zero > 10_000 {
+                panic!("SPIN: decoder keeps reading at end of input");
+            }
+        }
+        Ok(n)
+    }
+}
+
 fn decode_one(bytes: &[u8]) -> Option<(&'static str, String)> {
     let (r, max_single, _) = with_alloc_tracking(|| {
         catch(|| {
-            let mut r = bytes;
+            let mut r = EofGuard { d: bytes, zero: 0 };
             let _ = crate::wire::read_magic(&mut r);
-            let mut r2 = bytes;
+            let mut r2 = EofGuard { d: bytes, zero: 0 };
             for _ in 0..3 {
                 match crate::wire::read_frame::<_, Request>(&mut r2) {
                     Ok(Some(_)) => {}
@@ -260,6 +308,7 @@ fn decode_one(bytes: &[u8]) -> Option<(&'static str, String)> {
         })
     });
     match r {
+        Err(p) if p.starts_with("SPIN") => Some(("decoder_spins", format!("wire decoder spins at end of input: {p}"))),
         Err(p) => Some(("panic", format!("wire decoder panicked: {p}"))),
         Ok(()) if max_single > FRAME_ALLOC_BOUND => Some(("alloc_bound", format!("control-frame decoding requested a single allocation of {max_single} bytes (bound 1 MiB)"))),
         Ok(()) => None,
@@ -322,6 +371,9 @@ fn decoder_part(thorough: bool, evals: &AtomicU64, nontrivial: &AtomicU64) -> Ve
             let mut n = 0u64;
             let mut run = |b: &[u8], o: &mut Vec<Violation>| {
                 n += 1;
+                if o.len() >= 2 {
+                    return; // enough witnesses from this shard; keep the sweep fast when something is broken
+                }
                 if let Some((k, m)) = decode_one(b) {
                     if o.len() < 2 {
                         o.push(Violation::new(k, format!("{m} on input {}", hex(b)), json!({"part":"decoder","bytes":hex(b)})));
@@ -581,6 +633,38 @@ fn server_part(thorough: bool, evals: &AtomicU64, nontrivial: &AtomicU64) -> Vec
         if o.tree != pristine {
             out.push(Violation::new("changed_before_prologue", format!("input cut after {t} bytes (before the first content-bearing request is complete) changed the served tree"), json!({"part":"server","name":format!("cut {t}")})));
             break;
+        }
+    }
+    // content bytes that LOOK like a request frame must never be interpreted as one, whatever happens to the Put
+    {
+        let root = sc.path("hubc");
+        init_hub(&root);
+        let victim_hash = h(b"keep me");
+        let evil = framed(&cbor(&Request::Delete { path: "keep".into(), expected: Some(victim_hash) }));
+        let long_name = "n".repeat(245);
+        let targets: Vec<(&str, String, Option<[u8; 32]>)> = vec![
+            ("valid path", "ok-target".into(), None),
+            ("bad path", "../evil".into(), None),
+            ("wrong declared hash", "w".into(), Some(h(b"not this"))),
+            ("parent component is a regular file", "keep/x".into(), None),
+            ("name whose staging name exceeds NAME_MAX", long_name, None),
+            ("path is an existing directory", "d".into(), None),
+        ];
+        for (name, path, bad_hash) in targets {
+            evals.fetch_add(1, Ordering::Relaxed);
+            let mut input = frames[0].clone();
+            input.extend_from_slice(&frames[1]);
+            input.extend(framed(&cbor(&Request::Put { path: path.clone(), expected: None, len: evil.len() as u64, hash: bad_hash.unwrap_or_else(|| h(&evil)) })));
+            input.extend_from_slice(&evil);
+            input.extend(framed(&cbor(&Request::List)));
+            input.extend(framed(&cbor(&Request::Bye)));
+            let o = serve_session(&root, &input, true);
+            if o.tree.get("keep").map(Vec::as_slice) != Some(b"keep me".as_slice()) {
+                out.push(Violation::new("content_executed_as_request", format!("Put ({name}) whose CONTENT is a framed `Delete keep`: afterwards `keep` is gone — content bytes were interpreted as a request"), json!({"part":"content_as_frames","name":name})));
+            }
+            if o.timed_out || o.signal.is_some() {
+                out.push(Violation::new("server_crash", format!("Put ({name}): server hung or was killed by a signal"), json!({"part":"content_as_frames","name":name})));
+            }
         }
     }
     // resynchronisation after an error reply to a well-framed request
